@@ -1,5 +1,6 @@
 import PoaVerif.Model.Spec
 import PoaVerif.Lemmas.EndBlock
+import PoaVerif.Lemmas.RunRefine
 import PoaVerif.Witness.D1
 import PoaVerif.Witness.D6
 /-
@@ -44,6 +45,47 @@ theorem c02_D6_witness : ¬ C02_full genEnv := by
 theorem c02_chain_side (s s' : App) (ups : List (Nat × Int)) (h : s.stakingEndBlock = .ok (ups, s')) :
     ∀ op p, alookup op s'.last = some p → GoodEntry s' op p :=
   stakingEndBlock_post s s' ups h
+
+/-! ### the refinement theorem: C02 for every history inside the decidable region `Pre`
+
+  `Pre s c` (`Model/Pre.lean`) is a Boolean condition on the state entering x/staking's EndBlocker and CometBFT's
+  current set: candidates fit under MaxValidators, every candidate owns one power-index entry (two only if the
+  power table was pre-written — what `SetPOAPower` does), no power-0 entry shadows a candidate, identities are
+  distinct, validators leaving are bonded records CometBFT knows.  The defect classes D1, D3–D7 are exactly the
+  ways a PoA message leaves the state outside `Pre`; the driver evaluates `Pre` on every block of every explored
+  history (`PRE` lines) and the check confirms that blocks free of the listed triggers lie inside it. -/
+
+/-- **C02, one EndBlocker, every `Pre` state**: whatever the numbers of validators, their powers and statuses,
+    the index and the queue contents — if the state entering the EndBlocker and CometBFT's set satisfy `Pre`, the
+    update list the EndBlocker returns turns CometBFT's set into exactly the chain's own set: a key has power `p`
+    in CometBFT iff it is the consensus key of a bonded, un-jailed validator whose queried power is `p` -/
+theorem c02_endblock_refines (s s' : App) (c c' : CSet) (ups : List (Nat × Int)) (hp : Pre s c = true)
+    (h : s.stakingEndBlock = .ok (ups, s')) (hc : Comet.applyChangeSet c ups = .ok c') : Agree c' s' :=
+  stakingEndBlock_agree s s' c c' ups (preAgree_of_pre s c hp) h hc
+
+/-- **C02, whole histories (partial: histories inside `Pre`)**: by induction over the block list — any number
+    of blocks, any transactions — every step of a history all of whose blocks enter their EndBlocker inside `Pre`
+    ends with CometBFT's set equal to the chain's own.  The full statement `C02_full` is false (witnesses above);
+    what is missing here is exactly the histories that leave `Pre`, and those are the known findings. -/
+theorem c02_partial (env : Env) (s : App) (c : CSet) (bs : List Block) (hpre : preAll env s c bs = true) :
+    ∀ st ∈ (runFrom env s c bs).1, Agree st.comet st.app :=
+  runFrom_agree env bs s c hpre
+
+/-- genesis: InitChain's update list, applied to the empty set, is the chain's own set whenever the state x/staking's
+    InitGenesis builds lies inside `Pre` -/
+theorem c02_partial_init (g : Genesis) (u : List (Nat × Int)) (s : App) (c : CSet)
+    (hpre : Pre (App.genesisState g) [] = true) (h : App.initChain g = .ok (u, s))
+    (hc : Comet.applyChangeSet [] u = .ok c) : Agree c s :=
+  initChain_agree g u s c hpre h hc
+
+/-- non-vacuity: the first two blocks of the D1 witness history (an idle block, then SetPower 10 → 11 units of a
+    genesis validator) lie inside `Pre`, as does its genesis -/
+example : preAll genEnv Witness.D1.s0 Witness.D1.c0 [Witness.D1.b1] = true := by decide
+example : preAll genEnv Witness.D1.s1 Witness.D1.c1 [Witness.D1.b2] = true := by decide
+example : Pre (App.genesisState Witness.D1.g) [] = true := by decide
+
+/-- … and the block that sets the validator *back* (D1) does not: the theorem's hypothesis is what separates them -/
+example : preAll genEnv Witness.D1.s3 Witness.D1.c3 [Witness.D1.b4] = false := by decide
 
 /-- the genesis set returned by InitChain: for the witness genesis it is the chain's own set (`decide`d);
     `c02_partial_init` states it for every well-formed genesis of distinct single-entry validators below -/
